@@ -225,6 +225,9 @@ impl Property for C09 {
         let ex = [FamId::K256, FamId::Var].into_iter().flat_map(move |f| history::exhaustive(f, if quick { 1 } else { 2 })).map(Case::Hist);
         Box::new(it.chain(ex))
     }
+    fn fuzz_plans(&self) -> Vec<(&'static str, u64)> {
+        vec![("history", 10000)]
+    }
     fn gen(&self, c: &mut Choices) -> Case {
         Case::Hist(history::gen_history(c, None))
     }
